@@ -1554,6 +1554,9 @@ package server
 //@   requires aofLock != nil
 //@   at call HasLock assert C16.rewrite.terms: arg1.CommandType == aofLock.CommandType && arg1.DbId == aofLock.DbId && arg1.LockId == aofLock.LockId && arg1.LockKey == aofLock.LockKey && arg1.ExpriedFlag == aofLock.ExpriedFlag && arg1.Count == aofLock.Count && arg1.Rcount == aofLock.Rcount && arg2 == aofLock.data
 //@   at call HasLock assert C16.rewrite.lifetime,C07.rewrite.lifetime: implies(aofLock.CommandTime < 0x10000000000 && db.currentTime >= 0 && db.currentTime < 0x10000000000 && db.currentTime - aofLock.CommandTime <= ite(aofLock.ExpriedFlag&0x0040 != 0, 0xffff * 60, 0xffff), arg1.Expried == restoredLife(aofLock.ExpriedFlag, aofLock.ExpriedTime, db.currentTime - aofLock.CommandTime))
+// ... including the mode of Rcount (a priority, for a hold taken with RCOUNT_IS_PRIORITY): the record carries it as an AOF
+// flag, a restart hands it back to the engine (HandleLoad), and the engine's "same terms" test compares it
+//@   at call HasLock assert C16.rewrite.priority-mode: (arg1.TimeoutFlag&protocol.TIMEOUT_FLAG_RCOUNT_IS_PRIORITY != 0) == (aofLock.AofFlag&0x0010 != 0)
 //@   at call AppendLock assert C16.rewrite.kept: calls(HasLock) == 1 && arg1 == aofLock
 //@   at call WriteLockData assert C16.rewrite.value: calls(AppendLock) == 1 && arg1 == aofLock && aofLock.AofFlag&0x2000 != 0
 //@   modifies all
